@@ -38,6 +38,23 @@ inline bool for_each_gp(const Args& a, Reporter& rep, F f) {
     PC = {{10, 48}, {50, 8}, {92, 20}, {92, 90}, {30, 95}, {52, 58}, {70, 48}, {10, 15}};
     if (a.seed) for (auto* b : {&PS, &PC}) for (auto& p : *b) { p.x = (p.x * (2 + a.seed % 97) + 17 * a.seed) % 101; p.y = (p.y * (3 + (a.seed / 97) % 97) + 29 * a.seed) % 101; }
   }
+  // "twins" boards: coordinates of the order 10^5 and, next to two of the points, a twin about ten units away: a path that visits a
+  // point, a far point and the twin has a needle-thin spike, whose crossings with other edges lie a few units from each other (general
+  // position still holds: every distance is at least 3 units). This is where rounded intersection points make solution rings
+  // self-cross, which the clean-up passes (FixSelfIntersects during BuildPaths / BuildTree) then have to repair.
+  if (a.opt("board", "generic") == "twins") {
+    // (the last point of each board lies 5 units off the middle of the segment between its third and fourth point: a vertex next to an edge)
+    PS = {{3000, 5000}, {61000, 2000}, {97000, 41000}, {80000, 77000}, {44000, 50000}, {3007, 5011}, {61009, 1994}, {88504, 59002}};
+    PC = {{10000, 48000}, {50000, 8000}, {92000, 20000}, {30000, 95000}, {52000, 58000}, {10008, 47991}, {50011, 8007}, {60996, 57497}};
+    if (a.seed) for (auto* b : {&PS, &PC}) for (auto& p : *b) { p.x += 37 * (i64)(a.seed % 1009); p.y -= 53 * (i64)(a.seed % 1013); }
+  }
+  // "custom": boards given on the command line (--PS "x,y x,y ..." --PC "...")
+  if (a.opt("board", "generic") == "custom") {
+    Paths ps = parse_paths(a.opt("PS", "")), pc = parse_paths(a.opt("PC", ""));
+    if (ps.size() != 1 || pc.size() != 1) { fprintf(stderr, "custom board needs --PS and --PC\n"); exit(2); }
+    PS = ps[0]; PC = pc[0];
+    if (a.seed) for (auto* b : {&PS, &PC}) for (auto& p : *b) { p.x += 37 * (i64)(a.seed % 1009); p.y -= 53 * (i64)(a.seed % 1013); }
+  }
   u64 idx = 0;
   if (scope == "S1" || scope == "S3") {
     std::vector<Path> subs = polygons_over(PS, k, nmin, nmax), clips = polygons_over(PC, k, nmin, nmax);
@@ -64,6 +81,7 @@ inline bool for_each_gp(const Args& a, Reporter& rep, F f) {
       rep.add("inputs_enumerated");
       if (!general_position(Paths{s})) { rep.add("skipped_not_general_position"); continue; }
       GpInput in{Paths{s}, Paths(), nullptr, scope}; f(in);
+      if (a.opti("cliponly", 0)) { GpInput in2{Paths(), Paths{s}, nullptr, scope}; f(in2); }   // the same path as the only CLIP path, no subject at all
     }
     rep.bounds_completed.push_back(scope + " board=" + a.opt("board", "generic") + " k=" + std::to_string(k) + " n=" + std::to_string(nmin) + ".." + std::to_string(nmax));
     return true;
